@@ -287,6 +287,10 @@ func ruleFoldReset(p *Program, r *Reporter) {
 		}
 		return reset, false
 	}
+	// the same question asked of the flow graph: when it says that the window
+	// is empty wherever the walk goes on, the text's shape does not matter
+	ssaFold, ssaBad, ssaN := foldWindowSSA(p)
+	ssaClean := ssaFold != nil && ssaN > 0 && len(ssaBad) == 0
 	for _, cc := range sw.Body.List {
 		cl := cc.(*ast.CaseClause)
 		var ops []string
@@ -309,6 +313,8 @@ func ruleFoldReset(p *Program, r *Reporter) {
 		endReset, terminated := walk(cl.Body, false)
 		key := "folding pass, case " + label + ": window emptied before the walk continues"
 		switch {
+		case (len(bad) > 0 || (!terminated && !endReset)) && ssaClean:
+			r.OkNT(key, p.Pos(cl.Pos()), fmt.Sprintf("on the flow graph of the callback: for each of the %d opcodes other than a push or a no-op, every path on which the walk goes on empties the window after the last append", ssaN))
 		case len(bad) > 0:
 			r.Fail(key, p.Pos(bad[0]), "the walk continues (return true) from this case with constants still in the window: after an operation that could not be folded the window no longer matches the run-time stack, so the next fold combines the wrong constants or removes a push that is still needed (stack underflow at run time)")
 		case !terminated && !endReset:
@@ -674,6 +680,7 @@ func ruleOptClosed(p *Program, r *Reporter) {
 	}
 	partsOf := map[*ast.FuncDecl][]*ast.FuncDecl{}
 	isPart := map[*ast.FuncDecl]bool{}
+	var extraDecls []*ast.FuncDecl
 	for _, fd := range decls {
 		if !problem[fd] {
 			continue
@@ -690,11 +697,37 @@ func ruleOptClosed(p *Program, r *Reporter) {
 			continue
 		}
 		hd := p.FuncDecl(home)
-		if hd == nil || hd == runDecl || !writesProgram(info, hd) {
+		if hd == nil || hd == runDecl {
 			continue
+		}
+		if !writesProgram(info, hd) {
+			// a pass all of whose writing is done by its parts: read with them
+			if fnPkg(home) == nil || fnPkg(home).Pkg.Path() != Mod+"/vm" {
+				continue
+			}
+			known := false
+			for _, d := range decls {
+				if d == hd {
+					known = true
+				}
+			}
+			if !known {
+				extraDecls = append(extraDecls, hd)
+			}
 		}
 		partsOf[hd] = append(partsOf[hd], fd)
 		isPart[fd] = true
+	}
+	for _, hd := range extraDecls {
+		dup := false
+		for _, d := range decls {
+			if d == hd {
+				dup = true
+			}
+		}
+		if !dup {
+			decls = append(decls, hd)
+		}
 	}
 	replay := func(t *Reporter) {
 		for _, o := range t.obls {
@@ -1307,4 +1340,127 @@ func ruleFoldSafe(p *Program, r *Reporter) {
 			r.add(o.Verdict, o.Key, o.Pos, o.Detail, o.Nontrivial)
 		}
 	}
+}
+
+// foldWindowSSA: the constant folder's window judged on the flow graph of the
+// walker callback, whatever shape its text has.  The callback is the visitor
+// of package vm that appends to a captured list (or a list in its receiver)
+// where the opcode is a push.  For every other opcode (a no-op keeps the
+// window too) every path on which the walk goes on — the callback returns
+// true, or something not known to be false — must have emptied the window
+// after the last append.  Returns the callback, the opcodes for which some
+// path keeps the window (with a position), and how many opcodes were judged.
+func foldWindowSSA(p *Program) (*ssa.Function, map[string]token.Pos, int) {
+	oc := p.Opcodes()
+	var fold *ssa.Function
+	var window ssa.Value
+	sameAddr := func(a, b ssa.Value) bool {
+		if a == b {
+			return true
+		}
+		fa, ok1 := a.(*ssa.FieldAddr)
+		fb, ok2 := b.(*ssa.FieldAddr)
+		return ok1 && ok2 && fa.X == fb.X && fa.Field == fb.Field
+	}
+	for _, fn := range p.LibFns {
+		if !isWalkerCallback(fn) || fnPkg(fn).Pkg.Path() != Mod+"/vm" || len(fn.Params) < 3 {
+			continue
+		}
+		opc := fn.Params[len(fn.Params)-2]
+		for _, b := range fn.Blocks {
+			for _, ins := range b.Instrs {
+				st, ok := ins.(*ssa.Store)
+				if !ok {
+					continue
+				}
+				if _, isApp := isBuiltinCall(st.Val, "append"); !isApp {
+					continue
+				}
+				_, isFree := st.Addr.(*ssa.FreeVar)
+				_, isField := st.Addr.(*ssa.FieldAddr)
+				if !isFree && !isField {
+					continue
+				}
+				set := opcodeSetsAt(p, fn, b)[ssa.Value(opc)]
+				if len(set) == 1 && set["OpPush"] {
+					fold, window = fn, st.Addr
+				}
+			}
+		}
+	}
+	if fold == nil {
+		return nil, nil, 0
+	}
+	opc := ssa.Value(fold.Params[len(fold.Params)-2])
+	bad := map[string]token.Pos{}
+	n := 0
+	for _, name := range oc.names {
+		if name == "OpPush" || name == "OpNop" {
+			continue
+		}
+		n++
+		kv := constant.MakeInt64(oc.byName[name])
+		type st struct {
+			b     *ssa.BasicBlock
+			reset bool
+		}
+		seen := map[st]bool{}
+		var walk func(b *ssa.BasicBlock, reset bool)
+		walk = func(b *ssa.BasicBlock, reset bool) {
+			if seen[st{b, reset}] {
+				return
+			}
+			seen[st{b, reset}] = true
+			for _, ins := range b.Instrs {
+				switch x := ins.(type) {
+				case *ssa.Store:
+					if sameAddr(x.Addr, window) {
+						reset = isFreshEmpty(x.Val) || isNilConst(x.Val)
+					}
+				case *ssa.Return:
+					goesOn := true
+					if len(x.Results) > 0 {
+						if c, ok := returnOperand(x, 0).(*ssa.Const); ok && c.Value != nil && c.Value.Kind() == constant.Bool {
+							goesOn = constant.BoolVal(c.Value)
+						}
+					}
+					if goesOn && !reset {
+						if _, have := bad[name]; !have {
+							pos := x.Pos()
+							if !pos.IsValid() {
+								pos = fold.Pos()
+							}
+							bad[name] = pos
+						}
+					}
+					return
+				case *ssa.If:
+					if bo, ok := x.Cond.(*ssa.BinOp); ok && (bo.Op == token.EQL || bo.Op == token.NEQ) {
+						var other ssa.Value
+						if stripConvSSA(bo.X) == opc {
+							other = bo.Y
+						} else if stripConvSSA(bo.Y) == opc {
+							other = bo.X
+						}
+						if c, ok := stripConvSSA(other).(*ssa.Const); ok && other != nil && c.Value != nil && c.Value.Kind() == constant.Int {
+							eq := constant.Compare(c.Value, token.EQL, kv)
+							if eq == (bo.Op == token.EQL) {
+								walk(b.Succs[0], reset)
+							} else {
+								walk(b.Succs[1], reset)
+							}
+							return
+						}
+					}
+				}
+			}
+			for _, sc := range b.Succs {
+				walk(sc, reset)
+			}
+		}
+		if len(fold.Blocks) > 0 {
+			walk(fold.Blocks[0], false)
+		}
+	}
+	return fold, bad, n
 }
